@@ -758,7 +758,7 @@ func (c *HostClient) doNonNilReqResp(req *protocol.Request, resp *protocol.Respo
 	}
 
 	if resp.Header.StatusCode() == consts.StatusSwitchingProtocols &&
-		bytes.EqualFold(resp.Header.Peek(consts.HeaderConnection), bytestr.StrUpgrade) {
+		respI.ConnectionUpgrade(&resp.Header) {
 		// can not reuse connection in this case, it's no longer http1 protocol.
 		// set BodyStream for (*Response).Hijack
 		resp.SetBodyStream(newUpgradeConn(c, cc), -1)
